@@ -93,7 +93,40 @@ def run(ctx):
     ok = any(c.name() == "from_char" and "c:peek" in op_prov(tk, c.args[0], 8) for c in tk.calls())
     ctx.ob("R10.1", "Lexer::take:advance-by-peeked-char", ok, "the width added is that of the character returned by peek()", tk.where())
 
-    # ---------------- R10.2 every consumed span becomes text
+    # ---------------- R10.2 every consumed span becomes text, unshortened
+    TEXT_ID = {"take", "from", "into", "new_green", "as_ref", "deref", "borrow", "clone", "as_str", "to_owned", "intern"}
+
+    def text_fate(f, start_local, depth=0):
+        """(reaches a token text, via TextSpan::take, [calls that transform the text on the way])."""
+        fl = f.flows_to(start_local)
+        sink = via_take = False
+        transformers = []
+        for x in f.calls():
+            hit = any(op_local(a) in fl for a in x.args)
+            if not hit:
+                continue
+            if x.name() == "take" and "TextSpan" in x.path:
+                via_take = True
+            if x.name() == "new_green":
+                sink = True
+            elif place_local(x.dest) in fl and x.name() not in TEXT_ID:
+                transformers.append((x.name(), x.where()))
+        for _, _, st in f.stmts():
+            if st[0] == "a" and st[2][0] == "agg" and st[2][1] == "adt" and st[2][2].endswith("LexerTerminal"):
+                ops = dict(zip(st[2][5], st[2][3]))
+                if op_local(ops.get("text")) in fl:
+                    sink = True
+        if not sink and 0 in fl and depth < 3:
+            # handed back to the caller: the obligation continues at every call site
+            callers = [c for c in F.callers_of(last_seg(f.path)) if c.path == f.path]
+            if callers:
+                sub = [text_fate(c.fn, place_local(c.dest), depth + 1) for c in callers]
+                sink = all(x[0] for x in sub)
+                for x in sub:
+                    transformers += x[2]
+                via_take = via_take or all(x[1] for x in sub)
+        return sink, via_take, transformers
+
     n_cts = 0
     for p, f in sorted(F.fns.items()):
         if not f.body or not p.startswith(LEXER):
@@ -105,25 +138,13 @@ def run(ctx):
             n_cts += 1
             ords += 1
             ctx.analysed(f)
-            fl = f.flows_to(place_local(c.dest))
-            sink = False
-            via_take = False
-            for x in f.calls():
-                if x.name() == "take" and "TextSpan" in x.path and any(op_local(a) in fl for a in x.args):
-                    via_take = True
-                if x.name() == "new_green" and any(op_local(a) in fl for a in x.args):
-                    sink = True
-                if x.name() in ("from", "into") and "SmolStrId" in x.path and any(op_local(a) in fl for a in x.args):
-                    pass
-            for _, _, st in f.stmts():
-                if st[0] == "a" and st[2][0] == "agg" and st[2][1] == "adt" and st[2][2].endswith("LexerTerminal"):
-                    ops = dict(zip(st[2][5], st[2][3]))
-                    if op_local(ops.get("text")) in fl:
-                        sink = True
-            ctx.ob("R10.2", "%s|consume_text_span#%d" % (fn_key(p), ords), sink and via_take,
-                   "the consumed span is sliced out of the input (TextSpan::take: %s) and becomes a green token / terminal text (%s)" % (via_take, sink),
-                   c.where())
-    ctx.floor("consume_text_span call sites", n_cts, 5)
+            sink, via_take, transformers = text_fate(f, place_local(c.dest))
+            ok = sink and via_take and not transformers
+            ctx.ob("R10.2", "%s|consume_text_span#%d" % (fn_key(p), ords), ok,
+                   "the consumed span is sliced out of the input (TextSpan::take: %s) and becomes a green token / terminal text (%s)%s" % (
+                       via_take, sink, "" if not transformers else "; on the way it passes through %s, which can shorten or change it" %
+                       ", ".join("%s (%s)" % t for t in transformers[:3])), c.where())
+    ctx.floor("consume_text_span call sites", n_cts, 4)
 
     # ---------------- R10.3 linear use of lexed terminals
     adv_callers = set(last_seg(c.fn.root) for c in F.callers_of("Parser") if c.name() == "advance" and c.path.startswith(PARSER))
